@@ -34,7 +34,7 @@ def run(ctx):
     generic.subcommand_dispatch(ctx, "C12-D3c sub-command dispatch", "suit_generator.cmd_mpi", 2)
     repo = ctx.repo
     ctx.use_files("suit_generator/cmd_mpi.py")
-    generic.loops_run_to_end(ctx, "C12-D2f every input file is merged", repo.func(MOD, "MpiGenerator.merge"), {"merge", "loadhex", "fromfile", "IntelHex"}, "input files")
+    generic.loops_run_to_end(ctx, "C12-D2f every input file is merged", repo.func(MOD, "MpiGenerator.merge"), {"merge", "loadhex", "fromfile", "IntelHex"}, "input files", floor=0)
     ev = Evaluator(repo)
     gen = repo.func(MOD, "MpiGenerator.generate")
     fq = ctx.fq(gen)
